@@ -42,7 +42,16 @@ def project_history(variant):
             ('vab', 'e2', [['AddField', 'Thing', 'n2', 'Int',
                             {'db_index': True}, 0]]),
         ]
-    return EB.History(v0, steps)
+    hist = EB.History(v0, steps)
+    hist.variant = variant
+    if variant == 'A':
+        # a stale app: installed with code versions 0 and 1, removed from
+        # the code afterwards (purge candidates for the UP event)
+        old = A('vold', [M('Old', [F('x', 'Char', max_length=20)])])
+        for j in (0, 1):
+            hist.specs[j] = S.clone(hist.specs[j])
+            hist.specs[j]['apps'].append(S.clone(old))
+    return hist
 
 
 class Explorer(object):
@@ -77,7 +86,9 @@ class Explorer(object):
             ev.append(('I', k))
         if j >= 0:
             ev.append(('U',))
-            for label in h.labels():
+            if self.hist.variant == 'A':
+                ev.append(('UP',))      # upgrade all + purge stale apps
+            for label in [a['label'] for a in h.specs[j]['apps']]:
                 ev.append(('UA', label))
             if has_db:
                 ev.append(('F', 'first'))
@@ -116,7 +127,7 @@ class Explorer(object):
                 # states reached through a violating event are not expanded
                 continue
             img2 = B.snapshot('default')
-            has2 = has_db or ev[0] in ('U', 'UA', 'F')
+            has2 = has_db or ev[0] in ('U', 'UA', 'F', 'UP')
             key = S.canon([j2, EB.canonical_state(j2),
                            sorted(ref2['exec'].items())])
             self.stats['max_depth'] = max(self.stats['max_depth'],
@@ -171,7 +182,7 @@ class Explorer(object):
             self.compare_recorded(ref2, path, 'after-%s' % kind, None)
             return j, ref2, True
         # ---- upgrade runs
-        apps = None if kind in ('U', 'F') else [ev[1]]
+        apps = None if kind in ('U', 'F', 'UP') else [ev[1]]
         rows_before, versions_before = self.observe_recorded() if has_db \
             else ([], [])
         fault_at = None
@@ -205,7 +216,7 @@ class Explorer(object):
         tracer = O.Tracer('default', seq=seq, fault_at=fault_at,
                           match=lambda q: not acceptor.is_bookkeeping(q))
         with O.SignalLog(seq) as log:
-            res = D.d2_all(tracer=tracer, apps=apps)
+            res = D.d2_all(tracer=tracer, apps=apps, purge=(kind == 'UP'))
         self.stats['upgrade_runs'] += 1
         fresh_apps = set()
         tables = set(O.list_tables('default'))
@@ -226,7 +237,8 @@ class Explorer(object):
             if stmts:
                 executed += [tuple(e) for e in payload['evolutions']]
         seqs = {l: h.sequence(l, j) for l in h.labels()}
-        target_apps = h.labels() if apps is None else apps
+        target_apps = [a['label'] for a in h.specs[j]['apps']] \
+            if apps is None else apps
         if not res.ok:
             self.stats['failed_runs'] += 1
             if kind != 'F' and not self.wiped_or_marked(path):
@@ -272,7 +284,7 @@ class Explorer(object):
     def app_tables_existed(self, label, j, path):
         # an app is "installed" once an upgrade covering it succeeded
         for e in path[:-1]:
-            if e[0] == 'U' or (e[0] == 'UA' and e[1] == label):
+            if e[0] in ('U', 'UP') or (e[0] == 'UA' and e[1] == label):
                 return True
         return False
 
@@ -288,7 +300,7 @@ class Explorer(object):
                 marked_at = [i for i, e in enumerate(path)
                              if e[0] == 'M' and e[1] == a and e[2] == l]
                 installed_at = [i for i, e in enumerate(path)
-                                if e[0] == 'U' or
+                                if e[0] in ('U', 'UP') or
                                 (e[0] == 'UA' and e[1] == a)]
                 if a in getattr(self, '_orphans', ()):
                     ctx.append('tables-exist-but-app-not-in-signature')
@@ -388,7 +400,7 @@ def replay(path):
         if not ok:
             break
         image = B.snapshot('default')
-        has_db = has_db or ev[0] in ('U', 'UA', 'F')
+        has_db = has_db or ev[0] in ('U', 'UA', 'F', 'UP')
     for fp, ent in ex.viol.items():
         print('  %s %s' % (fp, str(ent['detail'])[:400]))
     if doc['fingerprint'] in ex.viol:
